@@ -515,45 +515,65 @@ func c13cachedHeader(c *Ctx, r *Result) {
 	// the mirror: copy(msg.Data[..], buf) where msg comes from dw.objectHeader.Messages
 	mirrored := false
 	var at ssa.Instruction = patch
-	for _, site := range callsIn(fn) {
-		call, ok := site.(*ssa.Call)
-		if !ok {
-			continue
+	for _, sc := range scopesOf(fn, buf) {
+		// in a helper, the cached header must be what the helper was handed
+		cacheBound := sc.call == nil
+		for _, bv := range sc.bind {
+			if valueReadsField(bv, "hdf5.DatasetWriter.objectHeader", 0) {
+				cacheBound = true
+			}
 		}
-		b, ok := call.Call.Value.(*ssa.Builtin)
-		if !ok || b.Name() != "copy" || call.Call.Args[1] != buf {
-			continue
-		}
-		dst := call.Call.Args[0]
-		for {
-			if sl, isSl := dst.(*ssa.Slice); isSl {
-				dst = sl.X
+		for _, site := range callsIn(sc.fn) {
+			call, ok := site.(*ssa.Call)
+			if !ok {
 				continue
 			}
-			break
-		}
-		ld, isLd := isLoad(dst)
-		if !isLd {
-			continue
-		}
-		if f, _ := fieldOfAddr(ld.X); f != nil && f.Name() == "Data" && valueReadsField(ld.X, "hdf5.DatasetWriter.objectHeader", 0) {
-			mirrored = true
-			at = call
-		} else if f != nil && f.Name() == "Data" {
-			// msg loaded from a range over dw.objectHeader.Messages
-			seen := false
-			instrs(fn, func(in ssa.Instruction) {
-				if l2, ok := in.(*ssa.UnOp); ok && l2.Op == token.MUL {
-					if fa, ok := l2.X.(*ssa.FieldAddr); ok {
-						if f2, base := fieldOfAddr(fa); f2 != nil && fieldKey(base.Type(), f2) == "hdf5.DatasetWriter.objectHeader" {
-							seen = true
-						}
-					}
+			b, ok := call.Call.Value.(*ssa.Builtin)
+			if !ok || b.Name() != "copy" || sc.res(call.Call.Args[1]) != buf {
+				continue
+			}
+			dst := call.Call.Args[0]
+			for {
+				if sl, isSl := dst.(*ssa.Slice); isSl {
+					dst = sl.X
+					continue
 				}
-			})
-			if seen {
+				break
+			}
+			ld, isLd := isLoad(dst)
+			if !isLd {
+				continue
+			}
+			f, _ := fieldOfAddr(ld.X)
+			if f == nil || f.Name() != "Data" {
+				continue
+			}
+			if sc.call != nil {
+				if cacheBound {
+					mirrored = true
+					at = sc.call
+				}
+				continue
+			}
+			if valueReadsField(ld.X, "hdf5.DatasetWriter.objectHeader", 0) {
 				mirrored = true
 				at = call
+			} else {
+				// msg loaded from a range over dw.objectHeader.Messages
+				seen := false
+				instrs(fn, func(in ssa.Instruction) {
+					if l2, ok := in.(*ssa.UnOp); ok && l2.Op == token.MUL {
+						if fa, ok := l2.X.(*ssa.FieldAddr); ok {
+							if f2, base := fieldOfAddr(fa); f2 != nil && fieldKey(base.Type(), f2) == "hdf5.DatasetWriter.objectHeader" {
+								seen = true
+							}
+						}
+					}
+				})
+				if seen {
+					mirrored = true
+					at = call
+				}
 			}
 		}
 	}
